@@ -1,5 +1,5 @@
 #!/usr/bin/env python3
-"""tools/seedall.py [jobs]: applies every /verif/seeded/<id>/patch.diff to a scratch worktree of /repo HEAD, confirms it
+"""tools/seedall.py [jobs [seed ids...]]: applies every /verif/seeded/<id>/patch.diff to a scratch worktree of /repo HEAD, confirms it
 (39 tests pass, demo fails with it / passes without), runs the quick check of the property it breaks against the patched
 worktree (VERIF_REPO) and writes /verif/seeded/MATRIX.json + prints one line per seed.  Nothing is written to /repo."""
 import json, os, re, shutil, subprocess, sys, tempfile
@@ -50,11 +50,18 @@ def one(sid):
         sh("git -C /repo worktree remove --force %s" % wt)
         shutil.rmtree(wt, ignore_errors=True)
     return res
-seeds = sorted(x for x in os.listdir(os.path.join(V, "seeded")) if os.path.isdir(os.path.join(V, "seeded", x)))
+seeds = sys.argv[2:] or sorted(x for x in os.listdir(os.path.join(V, "seeded")) if os.path.isdir(os.path.join(V, "seeded", x)))
 with ThreadPoolExecutor(max_workers=int(sys.argv[1]) if len(sys.argv) > 1 else 4) as ex:
     out = list(ex.map(one, seeds))
 head = subprocess.run("git -C /repo rev-parse --short HEAD", shell=True, capture_output=True, text=True).stdout.strip()
-json.dump({"repo_head": head, "seeds": out}, open(os.path.join(V, "seeded", "MATRIX.json"), "w"), indent=1)
+mpath = os.path.join(V, "seeded", "MATRIX.json")
+if sys.argv[2:] and os.path.exists(mpath):          # a partial run: merge into the existing matrix
+    old = {r["seed"]: r for r in json.load(open(mpath))["seeds"]}
+    old.update({r["seed"]: r for r in out})
+    merged = [old[k] for k in sorted(old)]
+else:
+    merged = out
+json.dump({"repo_head": head, "seeds": merged}, open(mpath, "w"), indent=1)
 for r in out:
     print(r["seed"], r.get("error") or ("confirmed=%s detected=%s input=%s  %s" % (
         r["demo_clean"] == 0 and r["demo_patched"] != 0 and r["tests_passed"] == 39, r["detected"], r["with_failing_input"],
